@@ -616,8 +616,40 @@ std::string gen_run(Rng &r, const Args &a) {
   std::string mode = gen_mode(r);
   std::ostringstream st, sx; // sx: extra seed ops (initial values of the loop variables)
   st << "(steps";
-  unsigned profile = r.below(14);
+  unsigned profile = r.below(16);
+  bool accel = true;
   switch (profile) {
+  case 14: case 15: { // stable two-way relations between two variables whose bounds grow alternately (a closed left
+                      // operand would re-derive the bound the previous widening dropped)
+    unsigned v = r.below(NV), w = (v + 1 + r.below(NV - 1)) % NV;
+    int64_t c1 = r.range(-2, 1), c2 = c1 + r.range(1, 2), b0 = r.range(0, 3);
+    accel = false; // one bound moves per step by a fixed amount; an accelerated index would move both at once
+    // relation: w + c1 <= v <= w + c2
+    std::string rel = " (le (lin " + I(c1) + " (1 " + V(w) + ") (-1 " + V(v) + "))) (le (lin " + I(-c2) + " (1 " + V(v) + ") (-1 " + V(w) + ")))";
+    if (profile == 14) {
+      // (bound of v, bound of w) = (B + c2, B) on even steps, (B + c2, B + c2 - c1) on odd steps, B = b0 + (c2-c1)*(i div 2):
+      // both bounds are tight and only one of them moves per step
+      bool lower = r.coin();
+      int64_t k = c2 - c1;
+      for (unsigned ph = 0; ph < 2; ph++) {
+        st << " (ind (assume 0" << rel;
+        if (lower) st << " " << ge(V(v), I(b0 + c1)) << " " << ge(V(w), I(b0));
+        st << " " << le(V(v), "(ixd " + I(-(b0 + c2)) + " " + I(-k) + " 2)")
+           << " " << le(V(w), "(ixd " + I(-(b0 + (ph ? k : 0))) + " " + I(-k) + " 2)") << "))";
+      }
+      sx << " (top 0) (assume 0" << rel << " " << ge(V(v), I(b0 + c1)) << " " << ge(V(w), I(b0)) << " " << le(V(v), I(-(b0 + c1))) << " " << le(V(w), I(-b0)) << ")";
+      if (r.below(3)) mode = r.coin() ? "widen" : "(delay " + I(r.range(1, 3)) + ")";
+    } else {
+      // two-counter loop: while(*) { if (v == w + c1) v += k else if (v == w + c2) w += k }   k = c2 - c1
+      int64_t k = c2 - c1;
+      st << " (bodyj (assume 0 (eq (lin " << c1 << " (1 " << V(w) << ") (-1 " << V(v) << ")))) (assign 0 " << V(v) << " (lin " << k << " (1 " << V(v) << "))))"
+         << " (bodyj (assume 0 (eq (lin " << c2 << " (1 " << V(w) << ") (-1 " << V(v) << ")))) (assign 0 " << V(w) << " (lin " << k << " (1 " << V(w) << "))))";
+      // start value with a non-singleton w, so that the relations are not implied by the bounds
+      sx << " (top 0) (assume 0 " << ge(V(w), I(b0)) << " " << le(V(w), I(-(b0 + (r.coin() ? k : 0)))) << rel << ")";
+      if (r.below(3)) mode = r.coin() ? "widen" : "(delay " + I(r.range(1, 3)) + ")";
+    }
+    break;
+  }
   case 12: { // disjunctive start value: two far-apart points per variable (joined), then a loop body / new interior points
     unsigned v = r.below(NV), w = (v + 1 + r.below(NV - 1)) % NV;
     int64_t a0 = r.range(-5, 5), gap = r.coin() ? r.range(50, 400) : (BIG_OK ? r.range(100000, 4000000000LL) : r.range(1000, 90000));
@@ -767,7 +799,7 @@ std::string gen_run(Rng &r, const Args &a) {
   }
   }
   st << ")";
-  return "(wchain.run " DOMNAME " " + mode + " " + I(nsteps) + " " + gen_seed(r, sx.str()) + " " + st.str() + gen_accel(r) + ")";
+  return "(wchain.run " DOMNAME " " + mode + " " + I(nsteps) + " " + gen_seed(r, sx.str()) + " " + st.str() + (accel ? gen_accel(r) : std::string()) + ")";
 }
 
 std::string gen_narrow(Rng &r, const Args &) {
